@@ -1305,7 +1305,7 @@ class Analyzer:
             elif head(f) == "attr" and strip(f[1]) == ("param", "self") and s.func.cls:
                 m = self.P.find_method(s.func.cls, f[2])
                 if m and m not in base and m != s.func.qualname:
-                    callee, selft = m, ("param", "self")
+                    callee, selft = m, (None if self.P.functions[m].is_static else ("param", "self"))
             if callee is None or callee in self._splicing or self.P.functions[callee].parent is not None:
                 continue
             try:
@@ -1408,7 +1408,12 @@ class Analyzer:
             if ev.kind == "call" and ev.data.get("term") in repl:
                 ev2 = Event(ev.kind, Ctx(tuple((rp(g), pol) for g, pol in ev.ctx.guards), ev.ctx.loops, ev.ctx.func, ev.ctx.tries), ev.node, dict(ev.data), k)
             else:
-                ev2 = Event(ev.kind, Ctx(tuple((rp(g), pol) for g, pol in ev.ctx.guards), ev.ctx.loops, ev.ctx.func, ev.ctx.tries), ev.node, {kk: rp(v) for kk, v in ev.data.items()}, k)
+                data = {kk: rp(v) for kk, v in ev.data.items()}
+                if ev.kind == "call" and head(strip(data.get("term"))) != "call":
+                    # a call event keeps a call term (the callee was a helper's returned function and has been beta-reduced away)
+                    t_ = subst(ev.data["term"], repl)
+                    data["term"] = t_ if head(strip(t_)) == "call" else ev.data["term"]
+                ev2 = Event(ev.kind, Ctx(tuple((rp(g), pol) for g, pol in ev.ctx.guards), ev.ctx.loops, ev.ctx.func, ev.ctx.tries), ev.node, data, k)
             out[k] = ev2
         s.events[:] = out
         s.ret = rp(s.ret)
@@ -1430,7 +1435,14 @@ class Analyzer:
     def bind_call(self, callee: Summary, call, self_term=None):
         """Map callee params to the argument terms of ``call`` (defaults filled in). None if undecidable."""
         c = strip(call)
-        args, kwargs = list(c[2]), dict(c[3])
+        args = []
+        for a in c[2]:
+            # f(*(a, b), c) == f(a, b, c)
+            if head(a) == "star" and head(strip(a[1])) in ("tuple", "list") and not any(head(strip(x)) == "star" for x in strip(a[1])[1]):
+                args.extend(strip(a[1])[1])
+            else:
+                args.append(a)
+        kwargs = dict(c[3])
         if any(head(a) == "star" for a in args):
             return None
         params = list(callee.params)
